@@ -123,4 +123,26 @@ def maxLenFrom : Nat → List Nat → Nat
   | i, h :: t => let m := maxLenFrom (i + 1) t; if m != 0 then m else if h != 0 then i + 1 else 0
 def maxLen (hist : List Nat) : Nat := maxLenFrom 0 hist
 
+/-- `diag_entropy` &c.: the non-zero entries of `hist[lmin-1:]`; the probabilities are these
+over their sum (`+ _epsilon` in the code), the entropy is `-Σ p log p` (`log` is numpy's: not
+modelled; the harness evaluates it on the model's probabilities). -/
+def entropyWeightsFrom : Nat → Nat → List Nat → List Nat
+  | _, _, [] => []
+  | i, lmin, h :: t =>
+      if i + 1 ≥ lmin ∧ h ≠ 0 then h :: entropyWeightsFrom (i + 1) lmin t
+      else entropyWeightsFrom (i + 1) lmin t
+def entropyWeights (lmin : Nat) (hist : List Nat) : List Nat := entropyWeightsFrom 0 lmin hist
+
+/-- numerator / denominator (before the code's `+ _epsilon`) of each scalar measure -/
+structure Scalars where
+  ratioNum : Nat      -- DET, LAM numerator; also numerator of the averages
+  ratioDen : Nat      -- DET, LAM denominator: all points on lines
+  avgDen : Nat        -- number of lines of length ≥ lmin
+  maxLen : Nat
+  weights : List Nat
+def scalars (lmin : Nat) (hist : List Nat) : Scalars :=
+  { ratioNum := partialWsum lmin hist, ratioDen := partialWsum 1 hist,
+    avgDen := partialCount lmin hist, maxLen := maxLen hist,
+    weights := entropyWeights lmin hist }
+
 end Pyunicorn.LineDist
